@@ -98,6 +98,12 @@ func randomSymGraph(r *rand.Rand, maxNodes, faultRate int) *sgraphCase {
 	}
 	// declared outputs: every intermediate, plus sometimes an input and rarely a name nothing binds
 	c.outputs = uniq(produced)
+	if len(c.outputs) > 1 && r.Intn(3) == 0 {
+		// only SOME of the names are declared: the other nodes are dead code, and a fault in a dead
+		// node (unregistered type, failing operator, undefined name) must still make Run fail
+		r.Shuffle(len(c.outputs), func(i, j int) { c.outputs[i], c.outputs[j] = c.outputs[j], c.outputs[i] })
+		c.outputs = c.outputs[:1+r.Intn(len(c.outputs)-1)]
+	}
 	if r.Intn(4) == 0 {
 		c.outputs = append(c.outputs, c.inputs[0].name)
 	}
@@ -124,7 +130,7 @@ func genC01(dir, tier string, seed int64) {
 		n = 6000
 	}
 	cw := newCaseWriter(dir, "C01_symbolic", symHeader, opFooter,
-		"seeded random DAGs over symbolic operators (outputs are hashes of operator id, attribute, input values and output index): 1..3 declared inputs, 0..2 initializers (some also declared as inputs and overridden or not, some shadowed by a caller tensor of the same name), extra caller tensors, 1..12 nodes with fan-in 0..3 and 1..3 outputs, skipped optional inputs (\"\"), omitted and arbitrarily named outputs, re-bound names, repeated operator types with different attributes; every intermediate declared as a graph output; about 1 case in 6 carries a fault (missing input, unregistered operator type, failing node, undefined name, wrong output count, unbound output); marshalled and loaded with NewModelFromBytes", false, 100)
+		"seeded random DAGs over symbolic operators (outputs are hashes of operator id, attribute, input values and output index): 1..3 declared inputs, 0..2 initializers (some also declared as inputs and overridden or not, some shadowed by a caller tensor of the same name), extra caller tensors, 1..12 nodes with fan-in 0..3 and 1..3 outputs, skipped optional inputs (\"\"), omitted and arbitrarily named outputs, re-bound names, repeated operator types with different attributes; every intermediate declared as a graph output in two cases of three, a random subset of them in the third (the rest of the graph is then dead code, faults included); about 1 case in 6 carries a fault (missing input, unregistered operator type, failing node, undefined name, wrong output count, unbound output); marshalled and loaded with NewModelFromBytes", false, 100)
 	for i := 0; i < n; i++ {
 		fr := 6
 		if i%3 == 0 {
